@@ -1635,6 +1635,13 @@ fn reference_chain(plan: &ResolvePlan, qname: &str) -> (Vec<(String, String)>, O
     (chain, Some(name), false)
 }
 
+/// Chains up to this many links must come back whole: the implementation's own
+/// recursion limit (a constant of `/repo`, 32 today) less the questions the
+/// resolution needs besides the aliases.
+fn whole_up_to() -> usize {
+    dns_resolver::RECURSION_LIMIT.saturating_sub(7)
+}
+
 fn oracle_c10(plan: &ResolvePlan, obs: &Observations) -> RunResult {
     let mut res = base_result(obs);
     for q in &obs.questions {
@@ -1673,7 +1680,7 @@ fn oracle_c10(plan: &ResolvePlan, obs: &Observations) -> RunResult {
                 // (and, without recursion, for a name nothing local knows)
                 let nothing_local = !q.recursive && ref_chain.is_empty();
                 let byzantine = !plan.knobs.upstream_fault_kinds.is_empty();
-                if !cyclic && !nothing_local && !byzantine && ref_chain.len() <= 25 {
+                if !cyclic && !nothing_local && !byzantine && ref_chain.len() <= whole_up_to() {
                     let dead = depends_on_dead_delegation(plan, obs, q);
                     res.violations.push(
                         Violation::new("c10.short_chain_failed")
@@ -1794,7 +1801,7 @@ fn oracle_c10(plan: &ResolvePlan, obs: &Observations) -> RunResult {
         // (decoy aliases from a byzantine upstream change what the chain is:
         // then only the shape is judged)
         let byzantine = !plan.knobs.upstream_fault_kinds.is_empty();
-        if !cyclic && !byzantine && ref_chain.len() <= 25 && got_links != ref_chain && !acceptable_cut {
+        if !cyclic && !byzantine && ref_chain.len() <= whole_up_to() && got_links != ref_chain && !acceptable_cut {
             res.violations.push(Violation::new("c10.chain_not_whole").detail(json!({
                 "q": qfacts(q), "reference_chain": ref_chain, "got": got_links,
                 "exchanges": exchange_summary(obs, q)
